@@ -20,6 +20,7 @@ CONFIGS = {
     'C': ['--features', 'std'],
     'D': ['--features', 'serde'],
     'E': ['--features', 'std', '--release'],
+    'F': ['--features', 'serde', '--release'],
 }
 CONFIG_DOC = {
     'A': 'default features (no_std), dev profile (debug assertions, overflow checks)',
@@ -27,6 +28,7 @@ CONFIG_DOC = {
     'C': 'feature std, dev profile',
     'D': 'feature serde, dev profile',
     'E': 'feature std, release profile',
+    'F': 'feature serde, release profile (what sits inside debug_assert! is not executed)',
 }
 
 
